@@ -58,7 +58,14 @@ def gen_meta(rng: core.Rng, tier: str) -> dict:
     for _ in range(rng.randint(1, 6)):
         acts.append([rng.choice(["works_for", "works_for", "member_of", "members", "sub"]), rng.next() % np_, rng.next() % nc_])
     prefix = [[rng.randint(1, 5), rng.chance(0.6), rng.chance(0.2)] for _ in range(rng.randint(1, 4 if tier == "quick" else 8))]
-    dead = [[rng.next() % nc_, rng.chance(0.5)] for _ in range(rng.randint(0, 2))] if rng.chance(0.5) else []
+    # dead companies that were sub-organisations of the assertion companies, collected (swept or not) at some point of the
+    # assertion sequence: before it, or between two assertions (then live sources related earlier share the node)
+    dead = [[rng.next() % nc_, rng.chance(0.4), rng.randint(0, len(acts))] for _ in range(rng.randint(0, 2))] if rng.chance(0.6) else []
+    if rng.chance(0.35):
+        # the family of seeded C14-J: two sources into one node, the later one dead and unswept, then the node gets a parent
+        nc_ = 3
+        acts = [["sub", 0, 1], ["sub", 1, 2]] + acts[:2]
+        dead = [[1, False, 1]] + dead[:1]
     return {"np": np_, "nc": nc_, "acts": acts, "prefix": prefix, "dead_sources": dead}
 
 
